@@ -14,7 +14,6 @@ inductive Align where
 structure Geo where
   f : Font
   wrap : Bool        -- white-space allows wrapping
-  brq : Bool         -- mirror the space-before-<br> quirk (see `CS.step`)
   avail : Int        -- content width of the container
   indent : Int       -- text-indent (first line only)
   align : Align
@@ -140,6 +139,6 @@ def Geo.placeFrom (G : Geo) : Nat → Rat → List (List Item) → List PLine
 
 def Geo.place (G : Geo) (ls : List (List Item)) : List PLine := G.placeFrom 0 G.y0 ls
 
-def Geo.layout (G : Geo) (ts : List Tok) : List PLine := G.place (G.lines (chunk G.f G.brq ts))
+def Geo.layout (G : Geo) (ts : List Tok) : List PLine := G.place (G.lines (chunk G.f ts))
 
 end WR.C11
